@@ -234,26 +234,14 @@ func (g *gen) fileSkeleton(i int) {
 	for _, d := range f.deps {
 		addPublic(d)
 	}
-	// edition 2024 option imports: an unresolvable path, or a file of the set that is built before
-	// this one (a transitive, non-visible dependency)
+	// edition 2024 option imports
 	if f.is2024() && g.chance(2, "option-import") {
+		// candidates: any earlier file whose symbols are not visible here (schema.Build builds files in
+		// slice order, so it resolves; protodesc.NewFiles resolves it or leaves a placeholder depending on
+		// its build order, and accepts the file either way), or a path that exists nowhere
 		var cands []string
-		var closure func(d *fileCtx)
-		cl := map[*fileCtx]bool{}
-		closure = func(d *fileCtx) {
-			if cl[d] {
-				return
-			}
-			cl[d] = true
-			for _, dd := range d.deps {
-				closure(dd)
-			}
-		}
-		for _, d := range f.deps {
-			closure(d)
-		}
 		for _, d := range g.files[:i] {
-			if cl[d] && !seen[d] {
+			if !seen[d] {
 				cands = append(cands, d.fd.GetName())
 			}
 		}
